@@ -28,7 +28,7 @@ for p in props:
 m = {
     "version": 1,
     "setup_cmd": "cd lean && lake build hwmodel " + " ".join(f"Haiway.Props.{c['property_id']}" for c in checks)
-                 + " Haiway.Bridge.Contexts Haiway.Bridge.Queue Haiway.Bridge.ScopeStateEndToEnd Haiway.Bridge.Missing Haiway.Bridge.MetricsEndToEnd Haiway.Bridge.MetricsViewEndToEnd Haiway.Bridge.Spawn Haiway.Bridge.RetryEndToEnd Haiway.Bridge.CacheEndToEnd Haiway.Bridge.ThrottleEndToEnd Haiway.Bridge.StateObj Haiway.Bridge.StateInit Haiway.Bridge.Completion Haiway.Bridge.Adopt Haiway.Bridge.Wrap Haiway.Bridge.LogScope Haiway.Bridge.DispExit Haiway.Bridge.Cancel Haiway.Bridge.Timeout",
+                 + " Haiway.Bridge.Contexts Haiway.Bridge.Queue Haiway.Bridge.ScopeStateEndToEnd Haiway.Bridge.ScopeStateInit Haiway.Bridge.Missing Haiway.Bridge.MetricsEndToEnd Haiway.Bridge.MetricsViewEndToEnd Haiway.Bridge.Spawn Haiway.Bridge.RetryEndToEnd Haiway.Bridge.CacheEndToEnd Haiway.Bridge.ThrottleEndToEnd Haiway.Bridge.StateObj Haiway.Bridge.StateInit Haiway.Bridge.Completion Haiway.Bridge.Adopt Haiway.Bridge.Wrap Haiway.Bridge.LogScope Haiway.Bridge.DispExit Haiway.Bridge.Cancel Haiway.Bridge.Timeout",
     "hooks": {
         "guard": "HAIWAY_VERIF",
         "enable": "no source hooks: checks import /repo/src in-process with HAIWAY_VERIF=1 set (unused by the library)",
